@@ -1257,7 +1257,14 @@ class Mailbox:
         notifications.append(f"* {num_msgs} EXISTS\r\n")
         notifications.append(f"* {num_recent} RECENT\r\n")
         for c in self.clients.values():
-            await c.client.push(*notifications)
+            # A client that has not yet been sent EXPUNGEs still counts the
+            # expunged messages: the new EXISTS must follow those EXPUNGEs,
+            # never overtake them.
+            #
+            if c.pending_expunges():
+                c.pending_notifications.extend(notifications)
+            else:
+                await c.client.push(*notifications)
 
         self.num_msgs = num_msgs
         self.num_recent = num_recent
